@@ -39,7 +39,11 @@ def ref_cmp(a, b):
                 return c
         return -1 if len(a) < len(b) else (1 if len(a) > len(b) else 0)
     if type(a) is type(b):
-        return -1 if a < b else (1 if a > b else 0)
+        try:
+            return -1 if a < b else (1 if a > b else 0)
+        except TypeError:
+            # one type, no order of its own (complex numbers): a tie
+            return 0
     ta, tb = _typename(a), _typename(b)
     return -1 if ta < tb else (1 if ta > tb else 0)
 
